@@ -6,6 +6,8 @@ pub mod c03;
 pub mod c04;
 pub mod c05;
 pub mod c06;
+pub mod c07;
+pub mod c08;
 pub mod c09;
 pub mod c10;
 pub mod c11;
@@ -25,6 +27,8 @@ pub fn run(ctx: &Ctx) -> Report {
     "C04" => c04::run(ctx),
     "C05" => c05::run(ctx),
     "C06" => c06::run(ctx),
+    "C07" => c07::run(ctx),
+    "C08" => c08::run(ctx),
     "C09" => c09::run(ctx),
     "C10" => c10::run(ctx),
     "C11" => c11::run(ctx),
